@@ -6,6 +6,6 @@ git -C /repo apply /verif/seeded/$S/patch.diff || { echo "$S: patch does not app
 out=$(/verif/bin/vcheck run $P "$@" 2>&1); rc=$?
 git -C /repo checkout -- .
 nv=$(echo "$out" | grep -c '^VIOLATION')
-echo "$S vs $P: exit=$rc violations=$nv $(echo "$out" | grep -m1 'violation:' | cut -c1-160)"
+echo "$S vs $P: exit=$rc violations=$nv $(echo "$out" | grep -m1 ' violation\| race ' | cut -c1-160)"
 [ $rc -eq 2 ] && echo "$out" | grep -m3 PROBLEM | cut -c1-300
 exit 0
